@@ -102,7 +102,7 @@ FLOWS = {
 
 
 def cfg(flow="set", peer=None, mode="deferred", drops=(1, 0), fine=(0,), sends=0, srverr=0, welcome=None,
-        explored=None, peer_close=True, weak=False):
+        explored=None, peer_close=True, weak=False, **more):
     t0 = list(FLOWS[flow]) + [("send", b"m%d" % i) for i in range(sends)]
     clients = [dict(threads=[t0, [("close",)]], drops=drops[0], mode=mode)]
     match = True
@@ -123,6 +123,7 @@ def cfg(flow="set", peer=None, mode="deferred", drops=(1, 0), fine=(0,), sends=0
              monitors=[mon_close], final_monitors=[fin_closed])
     if welcome:
         d["welcome"] = welcome
+    d.update(more)
     return d
 
 
@@ -153,6 +154,19 @@ def scenarios(tier):
     ch2["hsfail"] = 1
     ch2["explored"] = tuple(ch2["explored"]) + ("hsfail",)
     S.append(mk("solo-set-drop1-hsfail", ch2, max_depth=80, max_states=400000))
+    # close() while the first connection is still negotiating (TCP up, the server's WebSocket answer not yet there): stopping the
+    # service closes the transport, Autobahn reports onClose without onOpen, and the verdict is still the application's own close
+    for flow, mode in (("set", "deferred"), ("alloc", "delegate"), ("input", "deferred")):
+        cn = cfg(flow, None, mode, drops=(0, 0), negotiation=True)
+        cn["explored"] = tuple(cn["explored"]) + ("tcpconn", "negabort", "turn")
+        S.append(mk("solo-%s-%s-close-while-negotiating" % (flow, mode), cn, max_depth=80, max_states=400000))
+    # the server's welcome on a *re*connection carries an error (it was friendly the first time)
+    for flow, peer in (("set", None), ("set", "same"), ("alloc", None)):
+        cwl = cfg(flow, peer, "delegate" if peer else "deferred", drops=(1, 0), sends=1 if peer else 0, welcome_later={"error": "retired"})
+        if peer:
+            S.append(mk("pair-%s-unwelcome-on-reconnect-dev" % flow, cwl, dev_bound=3 if q else 4, max_depth=150))
+        else:
+            S.append(mk("solo-%s-unwelcome-on-reconnect" % flow, cwl, max_depth=100, max_states=400000))
     S.append(mk("solo-set-unwelcome", cfg("set", None, "deferred", drops=(1, 0), welcome={"error": "go away"}), max_depth=80))
     S.append(mk("pair-same-dev2-allfine", cfg("set", "same", "deferred", drops=(1, 1), fine=(0, 1), sends=1, srverr=1),
                 dev_bound=2, max_depth=150))
